@@ -403,3 +403,56 @@ def full_tracks_pos(ctx):
             ctx.ok(key, f.loc(adv[0][0], adv[0][1]), '%d store(s) advancing pos; every path to the return compares full with pos afterwards' % len(adv))
     if not n:
         ctx.anchor_missing('LZDecoder methods that advance pos')
+
+
+# --------------------------------------------------------------------------- LOOKAHEAD-HORIZON
+
+@rule('LOOKAHEAD-HORIZON', ['C13', 'C07'], floor=2)
+def lookahead_horizon(ctx):
+    """The encoder may only look at bytes the window guarantees to be there; otherwise what it finds depends on how
+    much the caller has written so far, and the compressed bytes depend on the write partition. The window keeps
+    `EXTRA_SIZE_AFTER + MATCH_LEN_MAX` bytes of look-ahead. The optimal parser prices up to N positions ahead, N being
+    the length of its `opts` array, and compares up to MATCH_LEN_MAX bytes at each: its EXTRA_SIZE_AFTER must be >= N.
+    The fast mode compares up to MATCH_LEN_MAX bytes at the position after the current one: its reserve must be
+    >= MATCH_LEN_MAX - 1. (Same constants as the reference implementation: OPTS and MATCH_LEN_MAX - 1.)"""
+    F = ctx.facts
+    def const(suffix):
+        c = [v for p, v in F.consts.items() if p.endswith(suffix)]
+        return c[0]['val'] if len(c) == 1 and isinstance(c[0]['val'], int) else None
+    mlm = const('MATCH_LEN_MAX')
+    if mlm is None:
+        ctx.anchor_missing('constant MATCH_LEN_MAX')
+        return
+    # normal mode: length of the opts vector
+    horizon = None
+    where = '-'
+    for f in F.fns:
+        if f.self_adt and last_seg(f.self_adt) == 'NormalEncoderMode' and f.name == 'new':
+            prov = Prov(f)
+            for bi, t, c in f.calls():
+                if c.name == 'from_elem' and len(t['args']) == 2 and 'Optimum' in (c.d.get('args') or [''])[0]:
+                    e = prov.operand(t['args'][1], 0, '%d:T' % bi)
+                    while e[0] == 'cast':
+                        e = e[-1]
+                    if e[0] == 'const' and isinstance(e[2], int):
+                        horizon = e[2]
+                        where = f.loc(bi)
+    key = 'NormalEncoderMode:reserve-covers-the-parser-horizon'
+    after = const('NormalEncoderMode::EXTRA_SIZE_AFTER')
+    if horizon is None or after is None:
+        ctx.violation(key, where, 'cannot determine the length of the optimal parser\'s opts array or EXTRA_SIZE_AFTER (anchor lost, fail closed)')
+    elif after >= horizon:
+        ctx.ok(key, where, 'opts has %d entries, EXTRA_SIZE_AFTER = %d' % (horizon, after))
+    else:
+        ctx.violation(key, where, 'the optimal parser prices up to %d positions ahead (length of opts) but the window only guarantees '
+                      'EXTRA_SIZE_AFTER = %d (+ MATCH_LEN_MAX) bytes of look-ahead: match lengths near the end of the parse depend on how much '
+                      'input has arrived, the output depends on the write partition' % (horizon, after))
+    key = 'FastEncoderMode:reserve-covers-one-match'
+    fa = const('FastEncoderMode::EXTRA_SIZE_AFTER')
+    if fa is None:
+        ctx.violation(key, '-', 'cannot find FastEncoderMode::EXTRA_SIZE_AFTER (anchor lost, fail closed)')
+    elif fa >= mlm - 1:
+        ctx.ok(key, '-', 'EXTRA_SIZE_AFTER = %d >= MATCH_LEN_MAX - 1 = %d' % (fa, mlm - 1))
+    else:
+        ctx.violation(key, '-', 'fast mode reserve %d is below MATCH_LEN_MAX - 1 = %d: the match at the next position can be cut short by the end of '
+                      'the current input' % (fa, mlm - 1))
